@@ -42,7 +42,7 @@ CFG = {
     "compare": _agree,
     "nontrivial": _nontrivial,
     "gen_timeout": 1500,
-    "search_budget_s": 100,
+    "search_budget_s": 40,
     "rule": "the extracted model walks the C01 ledger schemas (TransactionBody, TransactionWitnessSet, AuxiliaryData, PlutusData, PlutusList) with a "
             "seeded PRNG, encodes the values canonically and re-prints them with an untrusted noisy CBOR printer (each head widened to any legal "
             "width, definite<->indefinite arrays/maps, chunked byte strings, shuffled map keys, set tags dropped or doubled, empty collections under "
